@@ -557,6 +557,18 @@ def run(res, tier):
     trailer(facts, res)
     strides(facts, res)
     buffer_order(facts, res, tier)
+    res.rule("C14.5 the description travels with the buffer: move assignment of TbfMemoryBlock takes every data member from its argument (pointer, size, capacity, table pointers, block pointers, ownership); a member left behind describes the destination's old buffer and the published (pointer, size) no longer matches the allocation")
+    import c15
+    sub = tbf.Result("C15")
+    c15.memoryblock_typestate(facts, sub)
+    for i in sub.instances:
+        if i["key"] == "move-assignment members":
+            res.instance("C14.5.description-travels", i["key"], i["at"], i["detail"])
+    if not any(i["key"] == "move-assignment members" for i in sub.instances):
+        raise AnalysisBroken("C14.5: move-assignment member facts not produced")
+    for v in sub.violations:
+        if v["key"].startswith("move:left-behind:"):
+            res.violation("C14.5.description-travels", v["file"], v["function"], v["key"], v["line"], v["msg"])
     res.rule("C14.4 no function of the container / group classes converts a buffer pointer into a number (positions inside a buffer depend on its content only, never on its address)")
     n4 = address_independent(facts, res)
     res.floor("C14.4", n4, 100, "container / group functions")
